@@ -53,7 +53,7 @@ def main():
     doc_ok = "0 failed" in o and "passed" in o
     ran.append({"cmd": "cargo test --offline --doc (patched)", "result": o.strip().splitlines()[:2]})
     # 2. demo with / without
-    democmd = "cargo test --offline --test seed_demo 2>&1 | grep -E '^test result|panicked|FAILED' | head -6" if demo_kind == "cargo-test" else "sh demo.sh; echo EXIT=$?"
+    democmd = "cargo test --offline --test seed_demo 2>&1 | grep -E '^test result|panicked|FAILED' | head -6" if demo_kind == "cargo-test" else "bash demo.sh; echo EXIT=$?"
     rc, o1 = sh(democmd, wt)
     fails_with = ("FAILED" in o1 or "failed" in o1 and "0 failed" not in o1) if demo_kind == "cargo-test" else ("EXIT=0" not in o1)
     ran.append({"cmd": democmd + "  (patched)", "result": o1.strip().splitlines()[:6]})
